@@ -52,7 +52,7 @@ ASSUMPTIONS = [
     "min(3 s, call limit) instead of 20 s (typical cost 5-20 ms)",
 ]
 PROFILE = {
-    "quick": dict(examples=600, shards=16, budget_s=110),
+    "quick": dict(examples=1000, shards=16, budget_s=110),
     "thorough": dict(examples=8000, shards=16, budget_s=1100),
 }
 
@@ -223,7 +223,9 @@ def _case(draw, force_comp=None, force_klass=None):
         n_avail = n_cr * len(set(annotators))
     else:
         n_avail = n_cr * na
-    menu = [1, 2, 2, 3, max(n_avail, 1), n_avail + 3]
+    menu = [1, 2, 2, 3, max(n_avail, 1), n_avail + 3,
+            draw(st.integers(1, max(n_avail, 1))),
+            draw(st.integers(1, max(n_avail, 1)))]
     if comp == "IET":
         menu.append("adaptive")
     batch_size = draw(st.sampled_from(menu))
@@ -236,6 +238,9 @@ def _case(draw, force_comp=None, force_klass=None):
         else:
             napp = draw(st.lists(st.integers(1, 4), min_size=1, max_size=4))
             napp_array = draw(st.booleans())
+            if n_avail >= 3 and draw(st.booleans()):
+                # reach beyond the end of the preference array
+                batch_size = draw(st.integers(min(3, n_avail), n_avail))
         pv = st.one_of(st.integers(0, 3).map(float),
                        st.floats(-2, 2, allow_nan=False).map(
                            lambda v: round(v, 3)))
@@ -253,6 +258,10 @@ def _case(draw, force_comp=None, force_klass=None):
         annot_mode=annot_mode, annotators=annotators,
         batch_size=batch_size, napp=napp, napp_array=napp_array,
         A_perf=a_perf,
+        # annotator performances may be given on any scale (e.g. counts of
+        # correct labels) and as float32
+        a_perf_scale=draw(st.sampled_from([1.0, 1.0, 1.0e5, 1.0e3])),
+        a_perf_f32=draw(st.integers(0, 3)) == 0,
         return_utilities=draw(st.integers(0, 3)) > 0,
         as_list=draw(st.integers(0, 3)) == 0,
         seed=draw(st.integers(0, 2**31 - 1)),
@@ -388,7 +397,11 @@ def _build(case, classes):
         napp = np.array(napp, dtype=int) if case["napp_array"] else list(napp)
     kw["n_annotators_per_sample"] = napp
     if case["A_perf"] is not None:
-        kw["A_perf"] = np.array(case["A_perf"], dtype=float)
+        ap = np.array(case["A_perf"], dtype=float) * float(
+            case.get("a_perf_scale", 1.0))
+        if case.get("a_perf_f32"):
+            ap = ap.astype(np.float32)
+        kw["A_perf"] = ap
     return qs, kw
 
 
